@@ -15,10 +15,15 @@
        D0 ++ ... ++ Dk; an arm with no rows keeps the initial state; any two ways of splitting the same per-arm rows
        among the calls give the same regression (lin_split_irrelevant).  At binary64 the split changes only the
        order of the floating-point additions (compared by the correspondence run with rtol 1e-7).
-    ..._partial: that the Gauss-Jordan result is the two-sided inverse, and the limit alpha -> 0 of the LinTS
-    draw, are not proved (the first is validated by the ridge oracle numpy.linalg.solve on every run). *)
+     * THE INVERSE (field laws NumLaws): what the model's Gauss-Jordan elimination with partial pivoting returns for a
+       d x d matrix is a LEFT INVERSE of it (every row e of the result satisfies e.A = unit row; proved by two loop
+       invariants: every augmented row [m | e] satisfies e.A0 = m, and the first c columns are unit columns), hence
+       A_inv.(A.b) = b for every b: beta = A_inv.X'y is THE solution of the normal equations (lambda*I + X'X) b = X'y
+       whenever they have one (lin_history_beta_is_the_ridge_solution) - "exact per-arm ridge regression".
+    ..._partial: that a solution always exists (positive definiteness for lambda > 0 over an ordered field), and the
+    limit alpha -> 0 of the LinTS draw, are not proved; numpy.linalg.solve is the independent oracle on every run. *)
 From Coq Require Import List ZArith Bool Arith QArith Qcanon Permutation.
-From MW Require Import Num Assoc AssocFacts Rng Par CF CFInv CFClean CFForget CFSpec Matrix Lin Warm WarmInv Nbr NbrFacts NbrIndep LshFacts Clu Tree CellFacts Mab FacadeCF FacadeArms MoreFacts NumLaws CFAlg Sim Extra QcInst OrderFacts ExpIrrel LinInv FacadeLin LpInv NbrInv CluTreeInv FacadeAll ToyFacts C09All C10All LinForget LinSim MatrixFacts LinSpec.
+From MW Require Import Num Assoc AssocFacts Rng Par CF CFInv CFClean CFForget CFSpec Matrix Lin Warm WarmInv Nbr NbrFacts NbrIndep LshFacts Clu Tree CellFacts Mab FacadeCF FacadeArms MoreFacts NumLaws CFAlg Sim Extra QcInst OrderFacts ExpIrrel LinInv FacadeLin LpInv NbrInv CluTreeInv FacadeAll ToyFacts C09All C10All LinForget LinSim MatrixFacts GaussJordan LinSpec NbrIndepGen CluIndep C17Lin WarmIdem.
 Import ListNotations.
 
 Theorem C02_init_state :
@@ -117,6 +122,58 @@ Theorem C02_gram_matrix_additive_over_row_blocks :
   NumLaws N -> forall (d : nat) (x1 x2 : (@mat R)), xtx N d (x1 ++ x2) = madd N (xtx N d x1) (xtx N d x2).
 Proof. exact @xtx_app. Qed.
 Print Assumptions C02_gram_matrix_additive_over_row_blocks.
+
+Theorem C02_model_inverse_is_a_left_inverse :
+  forall (R : Type) (N : Num R),
+  NumLaws N ->
+  forall (d : nat) (a E : (@mat R)),
+  wfA d a ->
+  inverse N d a = Some E ->
+  length E = d /\
+  (forall i : nat, (i < d)%nat -> length (nth i E []) = d /\ lc N d (nth i E []) a = unit_vec N d i).
+Proof. exact @inverse_is_left_inverse. Qed.
+Print Assumptions C02_model_inverse_is_a_left_inverse.
+
+Theorem C02_model_inverse_solves_linear_systems :
+  forall (R : Type) (N : Num R),
+  NumLaws N ->
+  forall (d : nat) (a E : (@mat R)) (b : (@vec R)),
+  wfA d a -> inverse N d a = Some E -> length b = d -> mat_vec N E (mat_vec N a b) = b.
+Proof. exact @inverse_solves. Qed.
+Print Assumptions C02_model_inverse_solves_linear_systems.
+
+Theorem C02_elimination_step_keeps_both_invariants :
+  forall (R : Type) (N : Num R),
+  NumLaws N ->
+  forall (d : nat) (A0 m m' : (@mat R)) (c : nat),
+  wfA d A0 ->
+  (c < d)%nat ->
+  aug_ok N d A0 m -> ucol N d m c -> gj_step N m c = Some m' -> aug_ok N d A0 m' /\ ucol N d m' (S c).
+Proof. exact @gj_step_ok. Qed.
+Print Assumptions C02_elimination_step_keeps_both_invariants.
+
+Theorem C02_beta_is_the_ridge_solution :
+  forall (R A G : Type) (N : Num R),
+  NumLaws N ->
+  forall aeqb : A -> A -> bool,
+  (forall x y : A, aeqb x y = true <-> x = y) ->
+  forall (s0 : (@lin R A G)) (g : G) (d0 : list A) (rs0 : list R) (cx0 : (@mat R)) (h : list batch) (a : A) (b : (@vec R)),
+  lin_keys_ok s0 ->
+  In a (l_arms s0) ->
+  l_scale s0 = false ->
+  snd (lin_fit N aeqb s0 g d0 rs0 cx0) = true ->
+  snd (lin_partials N aeqb (fst (lin_fit N aeqb s0 g d0 rs0 cx0)) g h) = true ->
+  let d := ncols cx0 in
+  let mk := model aeqb (fst (lin_partials N aeqb (fst (lin_fit N aeqb s0 g d0 rs0 cx0)) g h)) a in
+  let bs := arm_batches aeqb a ((d0, rs0, cx0) :: h) in
+  let X := concat (map fst bs) in
+  let y := concat (map snd bs) in
+  bs <> [] ->
+  length b = d ->
+  mat_vec N (madd N (mscale N (l_l2 s0) (identity N d)) (xtx N d X)) b =
+  vadd N (zeros N d) (xty N d X y) -> r_beta mk = b.
+Proof. exact @lin_history_beta_is_the_ridge_solution. Qed.
+Print Assumptions C02_beta_is_the_ridge_solution.
 
 Theorem C02_lingreedy_expectation :
   forall (R A G : Type) (N : Num R) (RG : RngOps R G) (s : (@lin R A G)) (m : (@ridge R G)) (g : G) (x : (@mat R)),
